@@ -503,10 +503,26 @@ def run_mkproc(parts):
     def fu(d):
         return FuncUnit(um(d), [models[n] for n in d["preds"]])
 
+    # the four arguments are typed `Iterable[...]`: lists, tuples, generators, iterators and `map` objects are all legal
+    # (upstream's own post-order test passes a generator); a one-shot iterable must be read once (seeded change C12-9)
+    shape = parts.get("shape", 0)
+
+    def wrap(lst, k):
+        kind = (shape // (5 ** k)) % 5
+        if kind == 1:
+            return tuple(lst)
+        if kind == 2:
+            return (x for x in lst)
+        if kind == 3:
+            return iter(lst)
+        if kind == 4:
+            return map(lambda x: x, lst)
+        return lst
+
     try:
         with core.watchdog(TIMEOUT):
-            p = ProcessorDesc([um(d) for d in parts["inPorts"]], [fu(d) for d in parts["outPorts"]],
-                              [um(d) for d in parts["inOut"]], [fu(d) for d in parts["internal"]])
+            p = ProcessorDesc(wrap([um(d) for d in parts["inPorts"]], 0), wrap([fu(d) for d in parts["outPorts"]], 1),
+                              wrap([um(d) for d in parts["inOut"]], 2), wrap([fu(d) for d in parts["internal"]], 3))
             return {"ok": True, "proc": proc_json(p)}
     except core.CaseTimeout:
         return {"ok": False, "error": {"class": "Timeout", "fields": {}, "message": "non-termination"}}
@@ -566,6 +582,8 @@ def permuted(rng, parts, internal_order=None):
         p["internal"] = [p["internal"][i] for i in internal_order]
     for f in p["outPorts"] + p["internal"]:
         rng.shuffle(f["preds"])
+    if rng.random() < 0.5:
+        p["shape"] = rng.randrange(625)     # list / tuple / generator / iterator / map for each of the four arguments
     return p
 
 
